@@ -315,10 +315,7 @@ def build_case(ch, thorough, ctx):
     if prof == 'noq':
         if typ != 'real':
             ctx.exclude('integer Quotient not generated (known: integer-division findings)')
-        n = [0]
-        tree = unnest_multineg(tree, n)
-        if n[0]:
-            ctx.exclude('Product((-1,a,b)) nested in a Product rewritten to Product((-1, Product((a,b)))) (known: nested-negated-product-loses-factors)')
+        # (nested Product((-1,a,b)) is generated again: 'nested-negated-product-loses-factors' was repaired in /repo)
     if thorough:
         flags = list(range(32))
     else:
